@@ -3,7 +3,7 @@ import re
 import sys
 import sympy
 
-from .. import facts, ev, nf, quant
+from .. import facts, ev, nf, quant, alias
 from ..models import narrowing_casts
 from ..facts import short, strip_cvref
 from ..frontend import NUMERIC, VERIF
@@ -73,6 +73,8 @@ def run(chk):
     chk.rule("R4", "no kernel computes through a numeric type narrower than its own (e.g. an unqualified sqrt resolving to ::sqrt(double) in the long double instantiation)")
     chk.rule("R5", "kernels whose components contain no sum of terms of unknown sign have an a-priori forward error bound (<= 8 u) on arbitrary inputs; the others (inherent cancellation) are not decided")
     chk.rule("R3", "compound assignments of the tensor classes equal the corresponding pure operator")
+    chk.rule("R7", "aliasing safety: a mutating member that takes an operand by reference gives the same result when the operand is a stored "
+                   "component of the object (or the object itself) as when it is a copy of it - `v /= v.Mutable_x()` scales every component by the old x")
     chk.rule("R6", "component accessors (x, xy, ...), Mutable_<c>() references, Set_<c>(v) setters and the component-list constructors of the "
                    "four tensor classes address the entry of the embedded 3x3 matrix / 3-vector that their name says (the symmetric "
                    "aliases yx, zx, zy share the slots of xy, xz, yz); a setter changes nothing else; the array forms map element k to "
@@ -82,6 +84,7 @@ def run(chk):
                         "the few-ulp clause on non-integer inputs is decided only for kernels without cancellation (R5); for dot/cross/determinant/products it is input-dependent and NOT decided"]
     n = 0
     n_acc = [0]
+    n_alias = [0]
     errstats = {"decided": 0, "undecided": 0, "max_u": 0.0}
     for T in NUMERIC:
         F = facts.load(T, chk.tier)
@@ -154,6 +157,15 @@ def run(chk):
         for tn in tensors:
             if tn in F.records:
                 n_acc[0] += component_access(chk, F, tn, SHAPES[F.records[tn]["template"]], T)
+                for f, pts in alias.mutating_members_with_reference_params(F, tn):
+                    inst = "%s::%s(%s)" % (tn, f["sname"], ", ".join(strip_cvref(p).replace("PhQ::", "") + ("&" if facts.is_ref(p) else "") for p in pts))
+                    loc = short(f.get("def_loc", f["loc"]))
+                    try:
+                        probs = alias.check(F, f, tn, T)
+                        n_alias[0] += 1
+                        (chk.violated if probs else chk.holds)("R7", inst, "; ".join(probs) or "same result whether a reference operand is a copy or lives inside the object", loc)
+                    except ev.Inconclusive as x:
+                        chk.inconclusive("R7", inst, str(x), loc)
         # free operators
         for f in F.fns.values():
             if f.get("kind") != "function" or f.get("op") not in ("+", "-", "*", "/") or "body" not in f or len(f["params"]) != 2:
@@ -217,6 +229,7 @@ def run(chk):
     chk.floor("kernel overloads (x3 numeric types)", n, 300)
     chk.floor("component accessors/setters/constructors (x3)", n_acc[0], 200)
     chk.coverage["component_access_members"] = n_acc[0]
+    chk.coverage["alias_checked_members"] = n_alias[0]
     chk.coverage["kernel_overloads"] = n
     chk.coverage["forward_error_bound"] = errstats
     chk.holds("R5", "a-priori error bounds", "%d kernels without subtraction of rounded terms: relative error <= %s u on arbitrary (non-integer) inputs; %d kernels with possible cancellation (dot, cross, determinant, ...) not decided" % (errstats["decided"], errstats["max_u"], errstats["undecided"]), "")
